@@ -21,6 +21,9 @@ func runC01(c *Check, tier string) {
 	ruleR01c(c)
 	ruleR01d(c, "R01d")
 	ruleR01e(c)
+	// the statement names "bytes moving from the end of one input file to the start of the next":
+	// injective framing of the key stream is part of this property too
+	ruleR09c(c, "R01f")
 }
 
 var changeHashKey = fk("model.Target", "ChangeHash")
